@@ -89,13 +89,16 @@ def gen_case(rng, npr):
 def gen_renaming(rng, y):
     """an injective relabelling of the classes that keeps -1 and maps nothing else to -1"""
     classes = sorted(set(int(v) for v in y if v != -1))
-    style = rng.choice(["permute", "shift", "scatter", "negative"])
+    style = rng.choice(["permute", "shift", "scatter", "negative", "large", "large"])
     if style == "permute":
         img = classes[:]; rng.shuffle(img)
     elif style == "shift":
         off = rng.randint(1, 1000); img = [c + off for c in classes]
     elif style == "negative":
         img = [-(c + 2) for c in classes]
+    elif style == "large":      # consecutive class ids far above 2^24 (dates, hashes): distinct only when labels are kept as integers
+        base = rng.choice([20240101, 10 ** 9 + 7, 2 ** 40 + 3, 2 ** 53 - 1000])
+        img = [base + c for c in range(len(classes))]; rng.shuffle(img)
     else:
         img = rng.sample(range(0, 100000), len(classes))
     pi = dict(zip(classes, img)); pi[-1] = -1
